@@ -391,6 +391,52 @@ class Ctx:
         self.stats.unknown_labels.append(label)
         return False
 
+    def prove_with_tactic(self, prop, label, tactic="qfnra-nlsat", info=None, hints=()):
+        """Obligation decided by a dedicated tactic solver over the path condition (nlsat decides the polynomial sign
+        questions of the rounding-error model in milliseconds where the default combination answers unknown)."""
+        if isinstance(prop, SymBool):
+            prop = prop.e
+        if _isc(prop):
+            return self.prove(prop, label, info)
+        self.stats.obligations += 1
+        s = z3.Tactic(tactic).solver()
+        s.set("timeout", self.timeout_ms)
+        s.add(*self.pc)
+        s.add(z3.Not(prop))
+        t = time.time()
+        _arm_watchdog(s.ctx, self.timeout_ms / 1000.0 + 5.0)
+        try:
+            r = s.check()
+        finally:
+            _WD["deadline"] = None
+        self.stats.queries += 1
+        self.stats.solver_s += time.time() - t
+        if r == z3.unsat:
+            self.stats.unsat += 1
+            self.stats.proved += 1
+            return True
+        if r == z3.sat:
+            self.stats.sat += 1
+            self.cex.append(Counterexample(label, s.model(), info))
+            return False
+        # the tactic is quick at refuting; a model is searched with the default combination, first under the caller's
+        # simplifying hints (extra equalities between inputs: any model found is a model of the original query)
+        for h in hints:
+            rh, mh = self._check(z3.Not(prop), h)
+            if rh == "sat":
+                self.cex.append(Counterexample(label, mh, info))
+                return False
+        r2, m2 = self._check(z3.Not(prop))
+        if r2 == "sat":
+            self.cex.append(Counterexample(label, m2, info))
+            return False
+        if r2 == "unsat":
+            self.stats.proved += 1
+            return True
+        self.inconclusive.append(label)
+        self.stats.unknown_labels.append(label)
+        return False
+
     def witness(self, cond, label):
         """Reachability witness: is cond satisfiable on this path?"""
         if isinstance(cond, SymBool):
@@ -1100,6 +1146,20 @@ def _bothint(a, b):
     return (is_intish(a) or is_boolish(a)) and (is_intish(b) or is_boolish(b))
 
 
+# -- standard model of floating-point arithmetic (opt-in per path: CTX.rounding_eps = z3 rational) -------------------
+#    every float operation returns exact_result * (1 + delta) with a fresh |delta| <= eps. This is an over-approximation of
+#    IEEE rounding (absent overflow / underflow) under which sign / cancellation defects become visible to the real-
+#    arithmetic solver: a two-pass variance stays >= 0 for all deltas, a one-pass variance does not.
+def _rounded(r):
+    c = CTX
+    eps = getattr(c, "rounding_eps", None) if c is not None else None
+    if eps is None or z3.is_rational_value(z3.simplify(r)):
+        return r
+    d = z3.Real(c.fresh_name("fl_delta"))
+    c.add(z3.And(d >= -eps, d <= eps))
+    return r * (1 + d)
+
+
 def s_add(a, b):
     if not (is_numeric(a) and is_numeric(b)):
         return NotImplemented
@@ -1111,7 +1171,7 @@ def s_add(a, b):
     b = lift(b)
     nan = b_or(a.nan, b.nan, b_and(a.pinf, b.ninf), b_and(a.ninf, b.pinf))
     return mkfloat(
-        a.r + b.r,
+        _rounded(a.r + b.r),
         nan,
         b_and(b_not(nan), b_or(a.pinf, b.pinf)),
         b_and(b_not(nan), b_or(a.ninf, b.ninf)),
@@ -1191,7 +1251,7 @@ def s_mul(a, b):
     anyinf = b_or(a.inf(), b.inf())
     sameneg = b_eq(a.neg(), b.neg())
     return mkfloat(
-        _rmul(a.r, b.r),
+        _rounded(_rmul(a.r, b.r)),
         nan,
         b_and(b_not(nan), anyinf, sameneg),
         b_and(b_not(nan), anyinf, b_not(sameneg)),
@@ -1235,7 +1295,7 @@ def s_div(a, b):
                 ))
         else:
             q = a.r / r_ite(b_not(bz) if not _isc(bz) else (not bz), b.r, z3.RealVal(1)) if not (_isc(bz) and bz) else z3.RealVal(0)
-    q = r_ite(b.inf(), z3.RealVal(0), q)
+    q = r_ite(b.inf(), z3.RealVal(0), _rounded(q))
     return mkfloat(
         q,
         nan,
